@@ -5,12 +5,36 @@ From Coq Require Import List Arith Bool PeanoNat Lia Permutation Sorted.
 Import ListNotations.
 Require Import Fggs.Model.Conj Fggs.Proofs.ConjBase.
 
-Definition le_id (a b : edge) : Prop := e_id a <= e_id b.
+(** * the order on ids: implicit (even) before explicit (odd), numeric within a kind *)
+Lemma id_leb_refl : forall a, id_leb a a = true.
+Proof. intros a. unfold id_leb. destruct (Nat.even a); apply Nat.leb_refl. Qed.
+
+Lemma id_leb_trans : forall a b c, id_leb a b = true -> id_leb b c = true -> id_leb a c = true.
+Proof.
+  intros a b c. unfold id_leb.
+  destruct (Nat.even a), (Nat.even b), (Nat.even c); try discriminate; try reflexivity;
+    rewrite !Nat.leb_le; lia.
+Qed.
+
+Lemma id_leb_antisym : forall a b, id_leb a b = true -> id_leb b a = true -> a = b.
+Proof.
+  intros a b. unfold id_leb.
+  destruct (Nat.even a), (Nat.even b); try discriminate; rewrite !Nat.leb_le; lia.
+Qed.
+
+Lemma id_leb_total : forall a b, id_leb a b = false -> id_leb b a = true.
+Proof.
+  intros a b. unfold id_leb.
+  destruct (Nat.even a), (Nat.even b); try discriminate; try reflexivity;
+    rewrite Nat.leb_le, Nat.leb_gt; lia.
+Qed.
+
+Definition le_id (a b : edge) : Prop := id_leb (e_id a) (e_id b) = true.
 
 Lemma insert_edge_perm : forall x l, Permutation (insert_edge x l) (x :: l).
 Proof.
   induction l as [|y l IH]; simpl; [reflexivity|].
-  destruct (e_id x <=? e_id y); [reflexivity|].
+  destruct (id_leb (e_id x) (e_id y)); [reflexivity|].
   apply Permutation_trans with (y :: x :: l); [apply perm_skip; exact IH | apply perm_swap].
 Qed.
 
@@ -32,13 +56,13 @@ Lemma insert_edge_sorted : forall x l, StronglySorted le_id l -> StronglySorted 
 Proof.
   induction l as [|y l IH]; simpl; intros H.
   - constructor; constructor.
-  - inversion H as [|? ? H1 H2]; subst. destruct (e_id x <=? e_id y) eqn:E.
-    + apply Nat.leb_le in E. constructor; [exact H|]. constructor; [exact E|].
-      eapply Forall_impl; [|exact H2]. intros a Ha. unfold le_id in *. lia.
-    + apply Nat.leb_gt in E. constructor; [apply IH; exact H1|].
+  - inversion H as [|? ? H1 H2]; subst. destruct (id_leb (e_id x) (e_id y)) eqn:E.
+    + constructor; [exact H|]. constructor; [exact E|].
+      eapply Forall_impl; [|exact H2]. intros a Ha. unfold le_id in *. eapply id_leb_trans; eauto.
+    + apply id_leb_total in E. constructor; [apply IH; exact H1|].
       apply Forall_forall. intros a Ha.
       apply (Permutation_in _ (insert_edge_perm x l)) in Ha. destruct Ha as [<-|Ha].
-      * unfold le_id. lia.
+      * exact E.
       * rewrite Forall_forall in H2. apply H2. exact Ha.
 Qed.
 
@@ -50,8 +74,7 @@ Qed.
 Lemma insert_edge_sorted_cons : forall x l, Forall (le_id x) l -> insert_edge x l = x :: l.
 Proof.
   destruct l as [|y l]; simpl; intros H; [reflexivity|].
-  inversion H as [|? ? H1 H2]; subst. unfold le_id in H1.
-  destruct (e_id x <=? e_id y) eqn:E; [reflexivity|]. apply Nat.leb_gt in E. lia.
+  inversion H as [|? ? H1 H2]; subst. unfold le_id in H1. rewrite H1. reflexivity.
 Qed.
 
 (** sorting a sorted list changes nothing *)
@@ -63,8 +86,10 @@ Proof.
 Qed.
 
 (** two strictly sorted lists with the same elements are equal *)
+Definition slt {B} (key : B -> nat) (a b : B) : Prop := id_leb (key a) (key b) = true /\ key a <> key b.
+
 Lemma sorted_same_set_eq {B} (key : B -> nat) : forall l1 l2 : list B,
-  StronglySorted (fun a b => key a < key b) l1 -> StronglySorted (fun a b => key a < key b) l2 ->
+  StronglySorted (slt key) l1 -> StronglySorted (slt key) l2 ->
   (forall x, In x l1 <-> In x l2) -> l1 = l2.
 Proof.
   induction l1 as [|a l1 IH]; intros [|b l2] S1 S2 H.
@@ -76,12 +101,13 @@ Proof.
     assert (E : a = b).
     { destruct (proj1 (H a) (or_introl eq_refl)) as [E|Ha]; [auto|].
       destruct (proj2 (H b) (or_introl eq_refl)) as [E|Hb]; [auto|].
-      specialize (F2 _ Ha). specialize (F1 _ Hb). lia. }
+      destruct (F2 _ Ha) as [L2 N2]. destruct (F1 _ Hb) as [L1 N1].
+      exfalso. apply N1. apply id_leb_antisym; assumption. }
     subst b. f_equal. apply IH; auto. intros x. split; intros Hx.
     + destruct (proj1 (H x) (or_intror Hx)) as [E|Hx']; [|exact Hx'].
-      subst x. specialize (F1 _ Hx). lia.
+      subst x. destruct (F1 _ Hx) as [_ N]. congruence.
     + destruct (proj2 (H x) (or_intror Hx)) as [E|Hx']; [|exact Hx'].
-      subst x. specialize (F2 _ Hx). lia.
+      subst x. destruct (F2 _ Hx) as [_ N]. congruence.
 Qed.
 
 (** the signature [(edge.id, tuple(node ids))] compared by [conjoinable] *)
@@ -92,16 +118,14 @@ Proof. reflexivity. Qed.
 
 Lemma sorted_strict : forall l,
   StronglySorted le_id l -> NoDup (map e_id l) ->
-  StronglySorted (fun a b : nat * list nat => fst a < fst b) (map sigf l).
+  StronglySorted (slt (@fst nat (list nat))) (map sigf l).
 Proof.
   induction l as [|a l IH]; simpl; intros S N; [constructor|].
   inversion S as [|? ? S' F]; subst. inversion N as [|? ? N1 N2]; subst.
   constructor; [apply IH; auto|].
-  apply Forall_forall. intros x Hx. apply in_map_iff in Hx. destruct Hx as [e [<- He]]. simpl.
-  rewrite Forall_forall in F. specialize (F e He). unfold le_id in F.
-  assert (e_id a <> e_id e).
-  { intros E. apply N1. rewrite E. apply in_map. exact He. }
-  lia.
+  apply Forall_forall. intros x Hx. apply in_map_iff in Hx. destruct Hx as [e [<- He]].
+  rewrite Forall_forall in F. specialize (F e He). split; [exact F|]. simpl.
+  intros E. apply N1. rewrite E. apply in_map. exact He.
 Qed.
 
 Lemma sort_edges_nodup : forall l, NoDup (map e_id l) -> NoDup (map e_id (sort_edges l)).
